@@ -145,8 +145,22 @@ PurgeHeap(w, due, new) ==
     ELSE IF new # <<>> THEN (IF FragAcked(w, Head(new)) THEN PurgeHeap(w, due, Tail(new)) ELSE <<due, new>>)
     ELSE <<due, new>>
 
-RECURSIVE PurgePend(_, _)
-PurgePend(w, q) == IF q # <<>> /\ FragAcked(w, Head(q)) THEN PurgePend(w, Tail(q)) ELSE q
+(* the front of the pending queue, as the pending loop of emit_data_frames treats it before it tries to push:
+   entries whose fragment is acknowledged (or whose packet is gone) are dropped; a TimeSensitive packet whose first
+   fragment is still waiting although step() has been called since it was submitted is discarded as a whole (its
+   fragments count as acknowledged from then on, its bytes leave the send buffer size at once and not again when the
+   window entry is released).  st: any record with fields pendq, sWin, sTotal *)
+StaleT(w, e) == e.frag = 0 /\ Mode(w[e.pid].uid) = "T" /\ w[e.pid].ep # epoch
+RECURSIVE PurgePend(_)
+PurgePend(st) ==
+    IF st.pendq = <<>> THEN st
+    ELSE LET e == Head(st.pendq) IN
+         IF FragAcked(st.sWin, e) THEN PurgePend([st EXCEPT !.pendq = Tail(@)])
+         ELSE IF StaleT(st.sWin, e)
+              THEN PurgePend([st EXCEPT !.pendq = Tail(@),
+                                        !.sWin = [@ EXCEPT ![e.pid] = [@ EXCEPT !.acked = 0..(st.sWin[e.pid].nf - 1), !.disc = TRUE]],
+                                        !.sTotal = @ - st.sWin[e.pid].nf])
+              ELSE st
 
 (* position of a new heap entry with multiplier m among the entries created since the last Timeout:
    after every entry whose multiplier is not larger (resend time = now + rtt * m, now increasing) *)
@@ -177,7 +191,7 @@ Pull(st) ==     \* st: [sq, sTotal, sNext, sWin, sWinParent, sChParent, sAlloc, 
                           rs == p.mode \in {"P", "R"}
                       IN  [st EXCEPT !.sq = Tail(q), !.sTotal = ds[2], !.pulled = TRUE,
                                      !.sNext = PAdd(pid, 1),
-                                     !.sWin = (pid :> [uid |-> u, nf |-> p.nf, acked |-> {}, wpl |-> wpl, cpl |-> cpl]) @@ @,
+                                     !.sWin = (pid :> [uid |-> u, nf |-> p.nf, acked |-> {}, wpl |-> wpl, cpl |-> cpl, ep |-> Head(q).ep, disc |-> FALSE]) @@ @,
                                      !.sWinParent = IF p.mode = "R" THEN pid ELSE @,
                                      !.sChParent = IF p.mode = "R" THEN [@ EXCEPT ![p.ch] = pid] ELSE @,
                                      !.sAlloc = @ + p.nf,
@@ -194,9 +208,9 @@ DataFrame(w, e, nonce) ==
    would be attempted (it fails for lack of credit), exactly as the loops in emit_data_frames do *)
 RECURSIVE AfterEmit(_)
 AfterEmit(st) ==
-    LET q == PurgePend(st.sWin, st.pendq) IN
-    IF q # <<>> THEN [st EXCEPT !.pendq = q]
-    ELSE LET st2 == Pull([st EXCEPT !.pendq = q]) IN
+    LET s1 == PurgePend(st) IN
+    IF s1.pendq # <<>> THEN s1
+    ELSE LET st2 == Pull(s1) IN
          IF st2.pulled THEN AfterEmit(st2) ELSE st2
 
 SenderState == [sq |-> sq, sTotal |-> sTotal, sNext |-> sNext, sWin |-> sWin, sWinParent |-> sWinParent, sChParent |-> sChParent,
@@ -295,7 +309,7 @@ Release(st, upto) ==    \* st: [sBase, sWin, sWinParent, sChParent, sAlloc, sTot
                   sWinParent |-> IF st.sWinParent = b THEN None ELSE st.sWinParent,
                   sChParent |-> IF st.sChParent[c] = b THEN [st.sChParent EXCEPT ![c] = None] ELSE st.sChParent,
                   sAlloc |-> st.sAlloc - x.nf,
-                  sTotal |-> st.sTotal - x.nf], upto)
+                  sTotal |-> IF x.disc THEN st.sTotal ELSE st.sTotal - x.nf], upto)
 
 HandleAck(f) ==
     LET r == ApplyGroups(fLog, fLogBase, sWin, f.groups)
@@ -533,7 +547,7 @@ NoPlaceholderBetweenHonest == \A s \in Slots : s \in entryFlag => entry[s].uid #
 (* C20: send_buffer_size() = sizes of the packets queued or in the window *)
 RECURSIVE SumNf(_)
 SumNf(S) == IF S = {} THEN 0 ELSE LET u == CHOOSE x \in S : TRUE IN submitted[u].nf + SumNf(S \ {u})
-BufferSizeExact == sTotal = SumNf({sq[i].uid : i \in 1..Len(sq)}) + SumNf({sWin[p].uid : p \in DOMAIN sWin})
+BufferSizeExact == sTotal = SumNf({sq[i].uid : i \in 1..Len(sq)}) + SumNf({sWin[p].uid : p \in {x \in DOMAIN sWin : ~sWin[x].disc}})
 
 (* structural invariants of the implementation *)
 WindowsConsistent ==
